@@ -35,7 +35,7 @@ def _genes_size(rep, g):
 class MappingPurity(Facet):
     name = "mapping_purity"
     reps = ("ge", "sge", "dsge", "stack")
-    flags = Flags(dependent=False, user_mh=False, max_concrete=6, concrete_start=True)
+    flags = Flags(dependent=False, user_mh=False, max_concrete=6, concrete_start=True, weighted_string=True, interval_range=True)
 
     def budget(self, tier):
         return (60, 8) if tier == "quick" else (400, 16)
@@ -145,7 +145,7 @@ class MappingPurityDependent(MappingPurity):
     that a later mapping could see."""
 
     name = "mapping_purity_dependent_and_infeasible"
-    flags = Flags(dependent=True, infeasible=True, user_mh=True, max_concrete=6, concrete_start=True)
+    flags = Flags(dependent=True, infeasible=True, user_mh=True, max_concrete=6, concrete_start=True, weighted_string=True)
 
     def budget(self, tier):
         return (60, 4) if tier == "quick" else (300, 8)
